@@ -148,7 +148,14 @@ pub fn run_with(
                     Err(e) => return (terminal_of(&e), None),
                 };
                 obs.version = Some(conn.protocol_version().to_string());
+                // interrupted flavour: a second, unrelated connection is used on the same thread
+                // whenever the first one is interrupted (it receives one more line of a response of
+                // its own and is interrupted as well)
+                let mut other = (flavour == Flavour::BlockingInterrupted).then(|| Connection::connect(NoiseReader { greeted: false, give: true, at: 0 }).expect("noise greeting"));
                 let terminal = loop {
+                    if let Some(o) = other.as_mut() {
+                        let _ = o.receive();
+                    }
                     match conn.receive() {
                         Ok(Some(r)) => {
                             let (o, mm) = observe_response(&r);
@@ -251,17 +258,106 @@ pub fn run_with(
     obs
 }
 
-/// Polls `receive` once; whenever it is Pending the future is dropped and a fresh one created.
+/// Polls `receive` once; whenever it is Pending the future is dropped and a fresh one created. In
+/// between, a second unrelated connection on the same thread gets the same treatment (it receives one
+/// more line of a never-ending response of its own).
 fn receive_cancelling(conn: &mut AsyncConnection<AsyncChunkReader>) -> Result<Option<Response>, MpdProtocolError> {
     use std::{future::Future, task::{Context, Poll, Waker}};
+    thread_local! {
+        static OTHER: std::cell::RefCell<Option<AsyncConnection<NoiseReader>>> = const { std::cell::RefCell::new(None) };
+    }
     let mut cx = Context::from_waker(Waker::noop());
     for _ in 0..50_000_000u64 {
+        OTHER.with(|o| {
+            let mut o = o.borrow_mut();
+            if o.is_none() {
+                *o = Some(crate::seg::block_on(AsyncConnection::connect(NoiseReader { greeted: false, give: true, at: 0 })).expect("noise greeting"));
+            }
+            let c = o.as_mut().unwrap();
+            let mut fut = std::pin::pin!(c.receive());
+            let _ = fut.as_mut().poll(&mut cx);
+        });
         let mut fut = std::pin::pin!(conn.receive());
         if let Poll::Ready(r) = fut.as_mut().poll(&mut cx) {
+            // a fresh noise connection for the next case on this thread (its parked response grows)
+            OTHER.with(|o| *o.borrow_mut() = None);
             return r;
         }
     }
     panic!("harness: receive never completes");
+}
+
+/// Transport of the second connection: a greeting, then "noise: 1" lines of a response that never
+/// ends, one per read; every other read is WouldBlock (blocking) / Pending (async).
+pub struct NoiseReader {
+    greeted: bool,
+    give: bool,
+    at: usize,
+}
+
+impl NoiseReader {
+    fn serve(&mut self, room: usize) -> Option<&'static [u8]> {
+        const LINE: &[u8] = b"noise: 1\n";
+        if !self.greeted {
+            self.greeted = true;
+            return Some(GREETING);
+        }
+        if self.at == 0 {
+            self.give = !self.give;
+            if self.give {
+                return None;
+            }
+        }
+        let n = (LINE.len() - self.at).min(room);
+        let out = &LINE[self.at..self.at + n];
+        self.at = (self.at + n) % LINE.len();
+        Some(out)
+    }
+}
+
+impl io::Read for NoiseReader {
+    fn read(&mut self, buf: &mut [u8]) -> io::Result<usize> {
+        match self.serve(buf.len()) {
+            Some(b) => {
+                buf[..b.len()].copy_from_slice(b);
+                Ok(b.len())
+            }
+            None => Err(io::Error::new(io::ErrorKind::WouldBlock, "harness: noise connection has nothing more right now")),
+        }
+    }
+}
+
+impl io::Write for NoiseReader {
+    fn write(&mut self, buf: &[u8]) -> io::Result<usize> {
+        Ok(buf.len())
+    }
+    fn flush(&mut self) -> io::Result<()> {
+        Ok(())
+    }
+}
+
+impl tokio::io::AsyncRead for NoiseReader {
+    fn poll_read(mut self: std::pin::Pin<&mut Self>, _cx: &mut std::task::Context<'_>, buf: &mut tokio::io::ReadBuf<'_>) -> std::task::Poll<io::Result<()>> {
+        match self.serve(buf.remaining()) {
+            Some(b) => {
+                buf.put_slice(b);
+                std::task::Poll::Ready(Ok(()))
+            }
+            None => std::task::Poll::Pending,
+        }
+    }
+}
+
+impl tokio::io::AsyncWrite for NoiseReader {
+    fn poll_write(self: std::pin::Pin<&mut Self>, _cx: &mut std::task::Context<'_>, data: &[u8]) -> std::task::Poll<io::Result<usize>> {
+        std::task::Poll::Ready(Ok(data.len()))
+    }
+    fn poll_flush(self: std::pin::Pin<&mut Self>, _cx: &mut std::task::Context<'_>) -> std::task::Poll<io::Result<()>> {
+        std::task::Poll::Ready(Ok(()))
+    }
+    fn poll_shutdown(self: std::pin::Pin<&mut Self>, _cx: &mut std::task::Context<'_>) -> std::task::Poll<io::Result<()>> {
+        std::task::Poll::Ready(Ok(()))
+    }
 }
 
 /// Short rendering of an observation for failure messages.
